@@ -310,6 +310,19 @@ func (vc *VC) runTop(sc splitCase) error {
 		vc.fact(g)
 		vc.note("axiom: %s", a.Text)
 	}
+	for _, l := range vc.c.Lemmas {
+		if len(l.Props) > 0 && vc.prop != "" && !clauseHasProp(l, vc.c, vc.prop) {
+			continue
+		}
+		g, err := ctx.evalBoolSafe(l.E)
+		name := strings.TrimPrefix(l.Kind, "lemma:")
+		if err != nil {
+			f.oblige(st, "lemma", name, fmt.Sprintf("lemma %s cannot be evaluated: %v", name, err), vc.fn.Pos(), B.False(), l)
+			continue
+		}
+		// proved before any precondition is assumed: valid for all parameter values
+		f.oblige(st, "lemma", name, "lemma "+name+": "+l.Text, vc.fn.Pos(), g, l)
+	}
 	for _, a := range vc.c.Defs {
 		g, err := ctx.evalBoolSafe(a.E)
 		if err != nil {
